@@ -144,6 +144,7 @@ func corpusSQL() []*modSpec {
 		mk("sql-foreign-keys", "package models\n\ntype IdA int64\ntype IdB int64\ntype BId int64\ntype OptA struct {\n\tValid bool\n\tId IdA\n}\n\ntype A struct {\n\tId IdA\n\tParent IdA\n\tOther IdB `gomacro-sql-on-delete:\"CASCADE\"`\n}\n\ntype B struct {\n\tId IdB\n\tIdA IdA\n\tMaybe OptA `gomacro-sql-foreign:\"A\" gomacro-sql-on-delete:\"SET NULL\"`\n\tRaw int64 `gomacro-sql-foreign:\"A\"`\n\tSuffix BId\n}\n\ntype LinkAB struct {\n\tIdA IdA\n\tIdB IdB\n}\n"),
 		mk("sql-enum-unexported-members", "package models\n\ntype Status int\n\nconst (\n\tActive Status = iota\n\tPaused\n\tarchived\n)\n\ntype Color string\n\nconst (\n\tBlue Color = \"blue\"\n\tRed Color = \"red\"\n\tother Color = \"other\"\n)\n\ntype T struct {\n\tId int64\n\tS Status\n\tC Color\n\tL []Status\n}\n"),
 		mk("sql-shared-json-shapes", "package models\n\ntype Meta map[string]int\n\ntype Address struct {\n\tStreet string\n\tTags []string\n}\n\ntype Article struct {\n\tId int64\n\tMeta Meta\n\tBilling Address\n\tShipping Address\n}\n\ntype Comment struct {\n\tId int64\n\tMeta Meta\n\tFrom Address\n}\n"),
+		mk("sql-table-names-ending-with-id", "package models\n\ntype IdGrid int64\ntype IdBid int64\ntype IdCell int64\n\ntype Grid struct {\n\tId IdGrid\n\tName string\n}\n\ntype Bid struct {\n\tId IdBid\n\tAmount int\n}\n\ntype Cell struct {\n\tId IdCell\n\tIdGrid IdGrid `gomacro-sql-on-delete:\"CASCADE\"`\n\tIdBid IdBid\n\tV int\n}\n"),
 		mk("sql-self-reference", "package models\n\nimport \"database/sql\"\n\ntype IdCategory int64\n\ntype Category struct {\n\tId IdCategory\n\tName string\n\tParent sql.NullInt64 `gomacro-sql-foreign:\"Category\" gomacro-sql-on-delete:\"CASCADE\"`\n\tSibling int64 `gomacro-sql-foreign:\"Category\"`\n\tSelf IdCategory\n}\n"),
 		mk("sql-guards", "package models\n\ntype K string\nconst (\n\tKA K = \"ka\"\n)\n\ntype T struct {\n\tId int64\n\tkind K `gomacro-sql-guard:\"#[K.KA]\"`\n\tVersion int `gomacro-sql-guard:\"2\"`\n\tA int\n}\n"),
 	}
